@@ -112,7 +112,7 @@ class Fn:
             if len(ds) == 1 and decls[v].get('init') is None:
                 continue            # declared, assigned once somewhere: not necessarily before every use
             texts = {self.render(self.strip_all_casts(x)) for x in ds}
-            if len(texts) == 1 and decls[v]['n'] not in next(iter(texts)):
+            if len(texts) == 1 and not any(x['k'] == 'DeclRefExpr' and x.get('vid') == v for x in self.walk(ds[0])):
                 self.const_init[v] = ds[0]
         self._env = None            # vid -> text while an inlined helper predicate is rendered in its caller's terms
 
